@@ -322,10 +322,26 @@ def check_rotate_towards(ctx, cfg, F, done):
                         got = [alg.nf(l) for l in ls[:3]]
                         if all(S.eq(g, e) for g, e in zip(got, exp)):
                             n_main += 1
+                            continue
+                        # every other branch (colinear operands: some orthogonal axis is chosen) must still preserve the length of self
+                        alg2 = nf.Algebra()
+                        alg2.budget = 600000
+                        S2 = Spec(alg2)
+                        for l in ls[:3]:
+                            alg2.nf(l)
+                        for v_, info in list(alg2.var_info.items()):
+                            if info[0] == 'fn' and info[1] in ('copysign', 'signum'):
+                                alg2.rel[v_] = Poly.const(1)
+                        alg2.memo.clear()
+                        g2 = [alg2.nf(l) for l in ls[:3]]
+                        a2 = [alg2.nf(x) for x in views[0].lanes[:3]]
+                        if not alg2.reduce(S2.sub(S2.dot(g2, g2), S2.dot(a2, a2))[0]).is_zero():
+                            bad = 'a fallback branch does not preserve the length of self (the rotation axis it picks is not unit length)'
+                            break
                 except ValueError as e:
                     ctx.undecided('R-ROTTOW', cfg, name, 'not analysable: %s' % e)
                     continue
-                if n_main == 0:
+                if not bad and n_main == 0:
                     bad = 'no branch is self rotated about normalize(self x rhs) by the clamped angle'
         done('R-ROTTOW', name, bad, it)
 
